@@ -104,5 +104,7 @@ def run(ctx: RuleContext, p: Program) -> None:
     ctx.try_rule(presence.rule_presence_truth, p, 'PRESENCE-TRUTH')
     from . import c09 as _c09
     ctx.try_rule(_c09.rule_slot_agree, p, 'SLOT-AGREE')
+    from . import round4 as _r4c
+    ctx.try_rule(_r4c.rule_custom_sem, p, 'CUSTOM-SEM')
     ctx.not_decided += ['that the printed text equals the input with exactly that span replaced (runtime equality; follows from C01 + these)']
     ctx.assumptions += ['primitive: Token._update_raw_text is the single text-changing routine (OWN-TEXT, C08)']
